@@ -838,6 +838,10 @@ func (r *Run) enterLoopHeader(st *State, fr *Frame, h *ssa.BasicBlock, prev *ssa
 		nv := freshVal(old.T, "loop"+fmt.Sprint(k)+"."+a.Comment, fr.te)
 		st.cells[id] = nv
 		r.assumeWF(st, nv, fr.te)
+		// the hidden index of a range loop starts at -1 and only grows
+		if a.Comment == "rangeindex" && len(nv.L) == 1 && nv.L[0].Sort == SInt {
+			st.assume(Ge(nv.L[0], IntLit(-1)))
+		}
 	}
 	// havoc heap written in the loop
 	st.bumpTop()
